@@ -39,7 +39,7 @@ from harness.core import err_kind
 
 PID = 'C06'
 TITLE = 'Distributed runs survive worker timeouts and deaths: no lost or doubled work'
-LEAN_MODULES = ['MlModel.Properties.C06', 'MlModel.Witness.C06']
+LEAN_MODULES = ['MlModel.Properties.C06', 'MlModel.Properties.C06Val', 'MlModel.Witness.C06']
 TRUSTED = [
     'the courier transport is harness/fakecourier (in-process): at-most-once handler execution, deadline errors carry '
     'code 4, an unreachable server completes no call, arguments/results are passed by reference (the repo pickles them)',
